@@ -33,6 +33,7 @@ REQUIRED_THEOREMS = [
     "parser_refines_general",
     "parser_fails_only_with_syntax_error",
     "compile_sound_from_string",
+    "parser_total",
 ]
 TRUSTED = [
     "modelled and compared per case: LinearConstraintParser.get_ast = tokenizer + shunting-yard with the base operator resolver over the "
